@@ -106,6 +106,12 @@ CHECKS = {
    text="A scripted exchange is cut by one stream fault at every message index on the send side (failing Send, or a Send stalled by flow control that then fails) and on the receive side, for EOF/Unavailable/Internal/Canceled, while the application queues a burst of 0..12 further requests; then Close, or Reset + new stub + Connect + a further exchange. The full product over small parameters is enumerated and larger ones are drawn. Done must fire, every Q must return, the error must be recorded, AwaitConverged must return a *ClientErr (never nil), Close/Reset must return, no goroutine with client frames may remain, and after Reset+Connect the client must be empty and converge again.",
    note="Trusted: the stub's emulation of the gRPC client-stream contract; goroutine census by stack frames; 10 s watchdog (a hang is reported only with the blocked client frames in the dump).",
    design="DESIGN.md §4 C14"),
+ "C11": dict(
+   technique="randomised concurrent workloads (rapid-drawn scripts, scheduler perturbation, GOMAXPROCS variation) under the Go race detector with a hang watchdog and a quiescent-state oracle",
+   level="exploration",
+   text="2-4 Modify sessions with ascending election ids (ties across sessions) and batches over per-session disjoint keys run from real goroutines together with Get readers and Flush callers (override and id-authorised) against one server built with -race. Any race-detector report is a violation (signature = the racing gribigo functions), as is a process death or a hang with gribigo frames parked on a lock/channel. At quiescence the learnt election id must be the maximum announced, the primary a session that announced it, every operation answered with one legal result sequence and, when no Flush overlapped, Get(ALL) must equal the union of the per-session folds of acknowledged operations.",
+   note="Trusted: the Go race detector's happens-before analysis on the executions seen; the scheduler chooses the interleavings (sampled, not enumerated).",
+   design="DESIGN.md §4 C11"),
 }
 NOT_YET = {}
 
